@@ -18,7 +18,35 @@ ASSUMPTIONS = ["compartment and stratum names contain no 'X' and stratification 
 
 def payloads(tier, seed):
     n = 60 if tier == "quick" else 1200
-    return [{"seed": seed, "index": i} for i in range(n)] + [{"seed": seed, "index": i, "mode": "shared"} for i in range(16 if tier == "quick" else 300)]
+    return ([{"seed": seed, "index": i} for i in range(n)] + [{"seed": seed, "index": i, "mode": "shared"} for i in range(16 if tier == "quick" else 300)]
+            + [{"seed": seed, "index": i, "mode": "decimal"} for i in range(2 if tier == "quick" else 20)])
+
+def decimal_task(W, payload):
+    """time grids with decimal (non-dyadic) start, end and step: the constructor may refuse a step whose quotient is not exactly an integer
+    in floating point (over-rejection is outside the property), but a grid it ACCEPTS must be start, start+h, ..., end"""
+    from fractions import Fraction
+    from summer2 import CompartmentalModel
+    r = random.Random(f"C12d:{payload['seed']}:{payload['index']}")
+    out = mk_out()
+    bump(out, "mode:decimal_grids")
+    steps = ["0.1", "0.2", "0.3", "0.7", "0.05", "0.15", "0.6", "1.1", "0.9"]
+    for _ in range(40):
+        h = r.choice(steps); k = r.randint(2, 12); t0 = r.choice(["0", "0.5", "1.1", "-0.3", "10", "0.7"])
+        fh, ft0 = Fraction(h), Fraction(t0)
+        t1 = ft0 + k * fh
+        args = ((float(ft0), float(t1)), ["A", "B"], ["A"])
+        try:
+            m = CompartmentalModel(*args, timestep=float(fh))
+        except BaseException:
+            bump(out, "decimal:refused"); continue
+        out["evals"] += 1
+        bump(out, "decimal:accepted")
+        want = [float(ft0 + i * fh) for i in range(k + 1)]
+        got = [float(v) for v in m.times]
+        out["cases"].append(f"decimal:{t0}:{h}:{k}")
+        if len(got) != len(want) or any(abs(a - b) > 1e-9 * max(1.0, abs(b)) for a, b in zip(got, want)):
+            fail(out, "an accepted time grid is not start, start+h, ..., end", "c12", payload, start=t0, end=str(t1), timestep=h, got=got[:6], n_got=len(got), n_want=len(want))
+    return out
 
 def shared_task(W, payload):
     """one Stratification object applied to two models with different compartment layouts: in each model, column j of the values handed to
@@ -33,6 +61,8 @@ def shared_task(W, payload):
 def task(W, payload):
     if payload.get("mode") == "shared":
         return shared_task(W, payload)
+    if payload.get("mode") == "decimal":
+        return decimal_task(W, payload)
     r = random.Random(f"C12:{payload['seed']}:{payload['index']}")
     prog = Gen(r, Opts(max_strats=3, max_flows=6, allow_requests=True, n_requests=2, allow_computed=False)).program()
     S = fresh_session(W)
